@@ -502,3 +502,119 @@ def obs_entry(ctx, k, act, d, nv, problems):
         return
     other = next((c for c in ctx["da_env"][:-1] if c is not None and c is not d), None)
     ctx["emit"].append(entry_case(d, exp, k, other))
+
+
+# ------------------------------------------------------------------ C10 (schedules, purity)
+MAX_TASKS_RUN = 70
+
+
+def run_cases(colls, at=0, sources=(), orders=4, seed=0):
+    """all given collections in ONE graph (shared sub-trees have several consumers), executed in several topological
+    orders with fingerprints of every live value and of the user's source arrays before and after every task"""
+    keys = []
+    dsk = {}
+    for c in colls:
+        keys += graphs.flatten_keys(c.__dask_keys__())
+        dsk.update(dict(fresh(c).__dask_graph__()))
+    G, ids, gg = graphs.export_graph(dsk, keys)
+    if len(G["defd"]) > MAX_TASKS_RUN:
+        return []
+    ords = graphs.topo_orders(G, how_many=orders, seed=seed)
+    if not ords:
+        return []
+    out = []
+    ref = None
+    for o in ords:
+        src_pre = [graphs.fingerprint(s) for s in sources]
+        events, store = graphs.execute(gg, ids, o, sources=sources)
+        src_post = [graphs.fingerprint(s) for s in sources]
+        if ref is None:
+            by_id = {i: k for k, i in ids.items()}
+            ref = [""] * G["n"]
+            for e in events:
+                ref[e["k"] - 1] = e["out"]
+            refcase = []
+        out.append({"fn": "run", "at": at, "g": G, "ref": ref, "ev": events, "src_pre": src_pre, "src_post": src_post,
+                    "order": "first" if o is ords[0] else "other"})
+    return out
+
+
+def obs_run(ctx, k, act, d, nv, problems):
+    if k != len(ctx["prog"]) - 1:
+        return
+    colls = [c for c in ctx["da_env"] if c is not None]
+    if d is not None and not any(c is d for c in colls):
+        colls.append(d)
+    try:
+        with warnings.catch_warnings():
+            warnings.simplefilter("ignore")
+            cases = run_cases(colls, k, sources=ctx.get("np_src", ()), orders=ctx["opts"].get("orders", 4), seed=k)
+    except Exception as ex:
+        ctx["emit"].append({"fn": "run-raised", "at": k, "err": f"{type(ex).__name__}: {str(ex)[:200]}"})
+        return
+    ctx["emit"].extend(cases)
+
+
+# ------------------------------------------------------------------ C21 (Frisky records)
+class NotObservable(Exception):
+    pass
+
+
+def records_case(colls, at=0, api="graph"):
+    """one record graph for the given collections (walked with one shared `seen` set when there are several)"""
+    # the dask graph first: a collection that cannot be built / computed at all is not this property's subject
+    dask_blocks = []
+    try:
+        for c in colls:
+            dstore, keys, _ = run_graph(fresh(c), True)
+            dask_blocks.append((keys, dstore))
+    except Exception as ex:
+        raise NotObservable(f"{type(ex).__name__}: {str(ex)[:120]}")
+    recs, outs = [], []
+    seen = set() if len(colls) > 1 else None
+    for c in colls:
+        f = fresh(c)
+        if api == "graph":
+            recs += list(f.__frisky_graph__(seen=seen) if seen is not None else f.__frisky_graph__())
+        else:
+            chunks, r, groups = f.__frisky_records_chunks__(seen=seen) if seen is not None else f.__frisky_records_chunks__()
+            if chunks:
+                raise NotImplementedError("binary layer chunks need the native extension")
+            recs += list(r)
+        outs += list(f.__frisky_output_keys__())
+    G, ids, dups = graphs.export_records(recs, outs)
+    case = {"fn": "records", "at": at, "api": api, "ncoll": len(colls), "g": G, "dups": dups, "outvals": []}
+    try:
+        store = graphs.execute_records(recs, G, ids)
+    except RuntimeError:
+        return case            # not executable: GraphVerdict will name the reason
+    except Exception as ex:
+        case["outvals"].append({"id": 0, "rec": f"raised {type(ex).__name__}: {str(ex)[:80]}", "dask": "computes"})
+        return case
+    for keys, dstore in dask_blocks:
+        for key in keys:
+            sk = str(key)
+            rec = graphs.fingerprint(store[sk]) if sk in store else "missing"
+            case["outvals"].append({"id": ids.get(sk, 0), "rec": rec, "dask": graphs.fingerprint(dstore[key])})
+    return case
+
+
+def obs_records(ctx, k, act, d, nv, problems):
+    groups = [[d]]
+    if k == len(ctx["prog"]) - 1:
+        live = [c for c in ctx["da_env"] if c is not None]
+        if len(live) >= 2:
+            groups.append(live[-3:])
+    for colls in groups:
+        for api in ("graph", "chunks"):
+            try:
+                with warnings.catch_warnings():
+                    warnings.simplefilter("ignore")
+                    ctx["emit"].append(records_case(colls, k, api))
+            except NotObservable:
+                return
+            except NotImplementedError as ex:
+                ctx["emit"].append({"fn": "records-raised", "at": k, "declined": 1, "err": str(ex)[:160]})
+            except Exception as ex:
+                ctx["emit"].append({"fn": "records-raised", "at": k, "declined": 0, "api": api, "ncoll": len(colls),
+                                    "err": f"{type(ex).__name__}: {str(ex)[:200]}"})
